@@ -487,3 +487,63 @@ def check_after_crash(cfg, ref, run, si, viol, stats, sig):
         pr["crash_full_reestimate_raised"] = pr.get("crash_full_reestimate_raised", 0) + 1
     finally:
         shutil.rmtree(out2, ignore_errors=True)
+
+
+MULTI_SYSTEMS = [
+    ("qubit", 2, {"state": ["z0_z0", "bell_phi_plus", "x0_y1"], "povm": ["z_z", "x_y", "bell"], "gate": ["cx", "cz", "swap"]}),
+    ("qutrit", 1, {"state": ["01z0", "0_1_2_superposition"], "povm": ["z3", "01x3"], "gate": ["01x90", "12z90"]}),
+]
+
+
+def check_noise_models_multi(cfg, rng, viol, stats, sig_base):
+    """I1 on composite systems the flow configurations of this engine do not use (two qubits, one qutrit): the noise models
+    must produce physical objects, and depolarising noise of rate p must mix the ideal object with the maximally mixed one
+    in proportion p, whatever the number of elemental systems.  Cheap (no tomography is run on these systems)."""
+    from quara.objects.composite_system_typical import generate_composite_system
+    from quara.objects.qoperation_typical import generate_qoperation
+    from quara.simulation.depolarized_qoperation_generation_setting import DepolarizedQOperationGenerationSetting
+    from quara.simulation.random_effective_lindbladian_generation_setting import RandomEffectiveLindbladianGenerationSetting
+
+    oc = stats["oracle_checks"]
+    method = cfg["noise"][0]
+    if method == "none":
+        return
+    mode, num, names = MULTI_SYSTEMS[rng.randrange(len(MULTI_SYSTEMS))]
+    c_sys = generate_composite_system(mode, num)
+    basis = _basis(c_sys)
+    dim = c_sys.dim
+    kind = rng.choice(["state", "povm", "gate"])
+    name = rng.choice(names[kind])
+    ids = {"ids": list(range(num))} if (kind == "gate" and name in ("cx",)) else {}
+    try:
+        ideal_obj = generate_qoperation(kind, name, c_sys, **ids)
+    except Exception:
+        return
+    para = cfg["noise"][1]
+    try:
+        if method == "depolarized":
+            setting = DepolarizedQOperationGenerationSetting(c_sys=c_sys, qoperation_base=ideal_obj, error_rate=para["error_rate"])
+            got = setting.generate()
+        else:
+            setting = RandomEffectiveLindbladianGenerationSetting(c_sys=c_sys, qoperation_base=ideal_obj, lindbladian_base="identity",
+                                                                  strength_h_part=para["strength_h_part"], strength_k_part=para["strength_k_part"])
+            got = setting.generate(np.random.Generator(np.random.MT19937(cfg["seed_qoperation"])))
+            got = got[0] if isinstance(got, tuple) else got
+    except Exception as e:
+        viol.append({"oracle": "I1_noise_model_physical", "what": f"noise model {method} raised {type(e).__name__}: {str(e)[:200]} for {kind} {name} on {num} {mode}(s)", "detail": {"noise": cfg["noise"][:2]},
+                     "signature": dict(sig_base, oracle="I1_noise_model_physical", noise=method, type=kind, system=f"{num}{mode}", exc=type(e).__name__)})
+        return
+    arr = workload.qobj_arrays(got)
+    oc["I1_physical_multi"] = oc.get("I1_physical_multi", 0) + 1
+    eq, ineq = physicality_defect(arr, basis, dim)
+    if eq > 1e-8 or ineq > 1e-8:
+        viol.append({"oracle": "I1_noise_model_physical", "what": f"{method} noise on {kind} {name} ({num} {mode}): result is not physical (equality defect {eq:.2e}, positivity defect {ineq:.2e})",
+                     "detail": {"noise": cfg["noise"][:2]}, "signature": dict(sig_base, oracle="I1_noise_model_physical", noise=method, type=arr["type"], system=f"{num}{mode}")})
+        return
+    if method == "depolarized":
+        oc["I1_depolarized_multi"] = oc.get("I1_depolarized_multi", 0) + 1
+        want = depolarized_expected(workload.qobj_arrays(ideal_obj), para["error_rate"], basis, dim)
+        dev = max(float(np.max(np.abs(np.asarray(w) - np.asarray(g)))) for w, g in zip(want, arr["arrays"]))
+        if dev > 1e-10:
+            viol.append({"oracle": "I1_depolarized_formula", "what": f"depolarised {kind} {name} on {num} {mode}(s), p={para['error_rate']}: deviates from (1-p)*ideal + p*maximally-mixed by {dev:.2e}",
+                         "detail": {"p": para["error_rate"]}, "signature": dict(sig_base, oracle="I1_depolarized_formula", type=arr["type"], system=f"{num}{mode}")})
